@@ -69,10 +69,11 @@ theorem unlawful_unreachable (c : Cmd) (h : nsOf c = some 1) : c.cls ∉ knownUn
 `GaussSem.gf θ c` is the channel on first and second moments of all quadratures (hbar = 2) that
 the command `c` implements — `μ ↦ Aμ + d`, `V ↦ AVAᵀ + Y` on the quadratures of its targets —
 with the documented blocks of `Rgate`, `Sgate`, `Pgate`, `Dgate`, `Xgate`, `Zgate`, `Fouriergate`,
-`LossChannel`, `ThermalLossChannel`, the Gaussian preparations, `BSgate`, `S2gate`, `CXgate`,
-`CZgate` (non-Gaussian, matrix-parametrised and measurement commands are place holders).  Its family
+`LossChannel`, `ThermalLossChannel`, the Gaussian preparations, single-mode `GaussianTransform(S)`,
+`PassiveChannel([[t]])`, real `Interferometer([[±1]])`, `BSgate`, `S2gate`, `CXgate`, `CZgate`
+(non-Gaussian gates / preparations and measurement commands are place holders).  Its family
 laws are *proved* (`GaussSem.rot_add`, `sq_add`, `shear_add`, `disp_add`, `x_add`, `z_add`,
-`fourier_cancel`, `loss_mul`, `prep_absorb_loc`, … from the angle-addition formulas), commands on
+`fourier_cancel`, `loss_mul`, `prep_absorb_loc`, `D1_mul`, … from the angle-addition formulas), commands on
 disjoint modes commute (`GaussSem.gf_comm`), so the Lawful hypothesis of `optimize_sem` is discharged. -/
 
 /-- **the optimiser does not change the Gaussian channel a circuit implements** — for every circuit,
